@@ -365,7 +365,7 @@ impl Property for C01 {
             })
             .collect();
         let mut chooser = make_chooser(src, nthreads, total * 6 + 4, rep);
-        let exec = run(threads, chooser.as_mut(), 6000);
+        let exec = run(threads, chooser.as_mut(), 12_000);
         drop(chooser);
         match &exec.verdict {
             ExecVerdict::Completed => {}
